@@ -1041,3 +1041,99 @@ Proof.
     rewrite ?Hneq, Hpc; destruct dd as [[|]|]; try congruence;
     destruct (pop left fs rest); reflexivity.
 Qed.
+
+(* ================================================================== Part 4: the fuel of [tokens_of] always suffices *)
+
+Definition mu (fs : fsys) (left : nat) (stack : list bytes) : nat :=
+  (length stack + left * S (max_file_tokens fs))%nat.
+
+Lemma assoc_tokens_bound name : forall fs content,
+  assoc name fs = Some content -> (length (split_ws content) <= max_file_tokens fs)%nat.
+Proof.
+  induction fs as [|[k c] r IH]; intros content H; cbn in *; [discriminate|].
+  destruct (bytes_eqb name k).
+  - injection H as ->. apply Nat.le_max_l.
+  - specialize (IH _ H). pose proof (Nat.le_max_r (length (split_ws c)) (max_file_tokens r)). lia.
+Qed.
+
+Lemma pop_measure fs : forall left stack a rest left',
+  pop left fs stack = PopArg a rest left' -> (mu fs left' rest < mu fs left stack)%nat.
+Proof.
+  unfold mu. induction left as [|l IH]; intros stack a rest left' H.
+  - destruct stack as [|w r]; cbn in H; [discriminate|].
+    destruct w as [|c w']; [injection H as _ <- <-; cbn; lia|].
+    destruct c as [|p]; [injection H as _ <- <-; cbn; lia|].
+    do 7 (destruct p as [p|p|]; try (injection H as _ <- <-; cbn; lia)).
+  - destruct stack as [|w r]; [cbn in H; discriminate|].
+    destruct (first_is_at w) eqn:Hat.
+    + destruct w as [|c name]; [discriminate|].
+      assert (c = 64%N) as ->.
+      { destruct c as [|p]; [discriminate|]. do 7 (destruct p as [p|p|]; try discriminate). reflexivity. }
+      cbn [pop] in H.
+      destruct (assoc name fs) as [content|] eqn:Ha.
+      * destruct (has_quote content).
+        -- injection H as _ <- <-. cbn. lia.
+        -- specialize (IH _ _ _ _ H). pose proof (assoc_tokens_bound _ _ _ Ha). rewrite app_length in IH. cbn. lia.
+      * injection H as _ <- <-. cbn. lia.
+    + rewrite (pop_not_at _ _ _ _ Hat) in H. injection H as _ <- <-. cbn. lia.
+Qed.
+
+Lemma tokenize_enough_fuel T sel fs : forall fuel dd left stack,
+  (mu fs left stack < fuel)%nat -> snd (tokenize fuel T sel dd fs left stack) <> TFuel.
+Proof.
+  induction fuel as [|f IH]; intros dd left stack Hmu; [lia|].
+  cbn [tokenize].
+  destruct (pop left fs stack) as [|arg rest left1] eqn:Hp; [cbn; discriminate|].
+  pose proof (pop_measure _ _ _ _ _ _ Hp) as M1.
+  set (dd' := match dd with Some false => if bytes_eqb arg dashdash then Some true else dd | _ => dd end).
+  assert (Hrest : forall d, snd (tokenize f T sel d fs left1 rest) <> TFuel) by (intros d; apply IH; lia).
+  destruct dd' as [[|]|].
+  - specialize (Hrest (Some true)). destruct (tokenize f T sel (Some true) fs left1 rest). exact Hrest.
+  - destruct (search T sel arg) as [i|].
+    + destruct (process i arg _) as [a consumed|]; [|cbn; discriminate].
+      destruct consumed.
+      * destruct (pop left1 fs rest) as [|a2 r2 l2] eqn:Hp2.
+        -- assert (H0 : snd (tokenize f T sel (Some false) fs left1 []) <> TFuel) by (apply IH; unfold mu in *; cbn; lia).
+           destruct (tokenize f T sel (Some false) fs left1 []). exact H0.
+        -- pose proof (pop_measure _ _ _ _ _ _ Hp2) as M2.
+           assert (H0 : snd (tokenize f T sel (Some false) fs l2 r2) <> TFuel) by (apply IH; lia).
+           destruct (tokenize f T sel (Some false) fs l2 r2). exact H0.
+      * specialize (Hrest (Some false)). destruct (tokenize f T sel (Some false) fs left1 rest). exact Hrest.
+    + specialize (Hrest (Some false)). destruct (tokenize f T sel (Some false) fs left1 rest). exact Hrest.
+  - destruct (search T sel arg) as [i|].
+    + destruct (process i arg _) as [a consumed|]; [|cbn; discriminate].
+      destruct consumed.
+      * destruct (pop left1 fs rest) as [|a2 r2 l2] eqn:Hp2.
+        -- assert (H0 : snd (tokenize f T sel None fs left1 []) <> TFuel) by (apply IH; unfold mu in *; cbn; lia).
+           destruct (tokenize f T sel None fs left1 []). exact H0.
+        -- pose proof (pop_measure _ _ _ _ _ _ Hp2) as M2.
+           assert (H0 : snd (tokenize f T sel None fs l2 r2) <> TFuel) by (apply IH; lia).
+           destruct (tokenize f T sel None fs l2 r2). exact H0.
+      * specialize (Hrest None). destruct (tokenize f T sel None fs left1 rest). exact Hrest.
+    + specialize (Hrest None). destruct (tokenize f T sel None fs left1 rest). exact Hrest.
+Qed.
+
+Lemma tokens_of_never_fuel T sel dd fs ws : snd (tokens_of T sel dd fs ws) <> TFuel.
+Proof. unfold tokens_of, tok_fuel. apply tokenize_enough_fuel. unfold mu. lia. Qed.
+
+(* the model is total in the proper sense: the fuel-exhausted answer never occurs, for any tables and any @-files,
+   cyclic ones included (the expansion counter of ExpandIncludeFile bounds the work) *)
+Theorem parse_never_out_of_fuel T E argv : parse_arguments T E argv <> RFuel.
+Proof.
+  unfold parse_arguments.
+  pose proof (tokens_of_never_fuel T (match e_kind E with KGcc => SelGcc | KClang => SelMerged end)
+                (match e_kind E with KGcc => None | KClang => Some false end) (e_files E) argv) as H1.
+  destruct (tokens_of T _ _ (e_files E) argv) as [al te].
+  destruct (run_loop (main_step T E) (init_vars, empty_lists) al) as [[v l]|w]; [|discriminate].
+  destruct te; try discriminate; [|exfalso; apply H1; reflexivity].
+  pose proof (tokens_of_never_fuel T SelMerged None (e_files E) (v_xclangs v)) as H2.
+  destruct (tokens_of T SelMerged None (e_files E) (v_xclangs v)) as [xl xe].
+  destruct (run_loop (x_step T E) (v, l, false) xl) as [[[v2 l2] f2]|w]; [|discriminate].
+  destruct xe; try discriminate; [|exfalso; apply H2; reflexivity].
+  unfold finish.
+  destruct (negb (v_compilation v2)); [discriminate|].
+  destruct (v_multiple_input v2); [discriminate|].
+  destruct (v_input v2); [|discriminate].
+  destruct (match v_language v2 with Some l0 => Some l0 | None => _ end); [|discriminate].
+  destruct (match v_output v2 with Some o => Some o | None => _ end); discriminate.
+Qed.
